@@ -13,6 +13,8 @@ enum P {
     Small(TKind, Kind),
     Sound(TKind, usize, usize),
     Pcm(TKind, usize, usize),
+    /// The 9P mount tag while the device changes it (up to 3 updates between register reads).
+    Tag(TKind),
 }
 
 fn parts(tier: Tier) -> Vec<(String, P)> {
@@ -23,6 +25,7 @@ fn parts(tier: Tier) -> Vec<(String, P)> {
             P::Small(t, k) => format!("{}:{}", k.name(), t.name()),
             P::Sound(t, d, dev) => format!("sound:{}:depth={}:dev={}", t.name(), d, dev),
             P::Pcm(t, d, dev) => format!("sound-pcm:{}:depth={}:dev={}", t.name(), d, dev),
+            P::Tag(t) => format!("9p-mount-tag-under-updates:{}", t.name()),
         };
         v.push((name, p));
     };
@@ -50,6 +53,8 @@ fn parts(tier: Tier) -> Vec<(String, P)> {
             add(P::Small(t, k));
         }
     }
+    add(P::Tag(TKind::MmioModern));
+    add(P::Tag(TKind::Pci));
     v
 }
 
@@ -59,6 +64,7 @@ fn runner(p: P) -> Box<dyn Fn() + Sync> {
         P::Small(t, k) => Box::new(move || c20::run_small(t, k)),
         P::Sound(t, d, _) => Box::new(move || c20_sound::run_sound(t, d, false)),
         P::Pcm(t, d, _) => Box::new(move || c20_sound::run_sound(t, d, true)),
+        P::Tag(t) => Box::new(move || vlab::c13::run_tear_as("C20", "mount-tag", Kind::P9, t)),
     }
 }
 
@@ -83,12 +89,13 @@ fn main() {
     }
     let thorough = args.tier == Tier::Thorough;
     let mut c = Check::new("C20", args.tier, "model_checking");
-    c.rule = "deviation-bounded DFS over sequences of public operations of the GPU driver (resolution, flush, setup_cursor, move_cursor, change_resolution over 4 sizes, setup_framebuffer, get_edid) and the sound driver (set_params valid/invalid, prepare/release/start/stop, blocking and non-blocking PCM transfers with any completion order, pcm_xfer_ok right/wrong token, jack_remap) with the device's response a bounded deviation (honest / error / wrong success type; per-period PCM status); fixed scripts with explored device answers for entropy, clock and 9P on 3 transports; exhaustive EDID sweeps through the real get_edid path. distinct = distinct observation signatures".into();
-    c.assumptions = vec!["out-of-order completion of the blocking pcm_xfer is not explored (its documented model is in-order)".into(), "EDID: 2^8192 blobs are projected onto the bits the decoders read: all 2^24 (quick: 2^18) combinations for the preferred timing, all 2^16 values of one standard timing, all pairs of 16 values for ordering, 6 size values".into()];
+    c.rule = "deviation-bounded DFS over sequences of public operations of the GPU driver (resolution, flush, setup_cursor, move_cursor, change_resolution over 4 sizes, setup_framebuffer, get_edid) and the sound driver (set_params valid/invalid, prepare/release/start/stop, blocking and non-blocking PCM transfers with any completion order, pcm_xfer_ok right/wrong token, jack_remap) with the device's response a bounded deviation (honest / error / wrong success type; per-period PCM status; for the blocking transfer also the device pace: served when notified, late oldest first, late newest first); the 9P mount tag read while the device changes it (up to 3 updates placed between the individual register reads); fixed scripts with explored device answers for entropy, clock and 9P on 3 transports; exhaustive EDID sweeps through the real get_edid path. distinct = distinct observation signatures".into();
+    c.assumptions = vec!["EDID: 2^8192 blobs are projected onto the bits the decoders read: all 2^24 (quick: 2^18) combinations for the preferred timing, all 2^16 values of one standard timing, all pairs of 16 values for ordering, 6 size values".into()];
     for (name, p) in parts(args.tier) {
         let dev = match p {
             P::Gpu(_, _, d) | P::Sound(_, _, d) | P::Pcm(_, _, d) => d,
             P::Small(..) => 2,
+            P::Tag(..) => 3,
         };
         let mut cfg = DfsConfig::new(&name, dev);
         cfg.wall_cap = Duration::from_secs(if thorough { 1500 } else { 30 });
